@@ -195,7 +195,7 @@ mod verif_kani {
     }
 
     //@harness props=C02,C12 kind=proof fns=BinaryOperator::left_needs_parentheses,ends_with_type_cast_to_type_name_without_type_parameters bound="all operators at every symbolic position; the stated shape with `nil` leaves and the type name `T`"
-    //@ desc="left operand of `<` of the form `a <any op> (y :: T)` (cast at its RIGHT edge) is parenthesised, for all 16 operators" budget=300
+    //@ desc="left operand of `<` of the form `a <any op> (y :: T)` (cast at its RIGHT edge) is parenthesised, for all 16 operators" budget=400
     #[kani::proof]
     #[kani::unwind(5)]
     fn vk_binary_left_cast_under_binary() {
@@ -203,7 +203,7 @@ mod verif_kani {
     }
 
     //@harness props=C02,C12 kind=proof fns=BinaryOperator::left_needs_parentheses,ends_with_type_cast_to_type_name_without_type_parameters bound="all operators at every symbolic position; the stated shape with `nil` leaves and the type name `T`"
-    //@ desc="left operand of `<` of the form `<unary op> (y :: T)` is parenthesised, for all 3 unary operators" budget=300
+    //@ desc="left operand of `<` of the form `<unary op> (y :: T)` is parenthesised, for all 3 unary operators" budget=400
     #[kani::proof]
     #[kani::unwind(5)]
     fn vk_binary_left_cast_under_unary() {
